@@ -73,6 +73,41 @@ def events_for(env, rng, thorough):
             q0 = ObtainQuantity(base, c)
         ev.append({"op": "Resolves", "call": "category only %s (%s)" % (c, first), "unit": q1.GetUnit(), "want_unit": du, "category": q1.GetCategory(), "want_category": c,
                    "unit0": q0.GetUnit(), "want_unit0": base, "eq": bool(q0 == q1) and hash(q0) == hash(q1) if base == du else bool(q0 != q1), "should_be_same": base == du})
+    # every unit of the table, cold: the request with the category named, then the first unit-only request, then the first request again
+    # must give the identical object both times (and the unit-only request an equal one, for a unit's default category)
+    for k_, (u, info) in enumerate(sorted(db.unit_to_unit_info.items())):
+        c = db.GetDefaultCategory(u)
+        if not c or (not thorough and k_ % 3):
+            continue
+        q1 = ObtainQuantity(u, c)
+        qn = ObtainQuantity(u)
+        q2 = ObtainQuantity(u, c)
+        ev.append({"op": "Intern", "call": "unit+category %s %s, the unit alone, the first request again" % (u, c), "id1": id(q1), "id2": id(q2), "desc1": desc(q1), "desc2": desc(q2),
+                   "hash1": hash(q1), "hash2": hash(q2)})
+        ev.append({"op": "SameReq", "call": "unit+category %s %s vs the unit alone" % (u, c), "eq": bool(q1 == qn), "ne": bool(q1 != qn), "hash1": hash(q1), "hash2": hash(qn),
+                   "desc1": desc(q1), "desc2": desc(qn)})
+    # legacy spellings of table units: the same quantity as the current spelling (equal, same hash, usable in a set, same composing units)
+    from barril.units import unit_database as _udb
+    for u in sorted(db.unit_to_unit_info):
+        for old, new in _udb._LEGACY_TO_CURRENT:
+            if new in u and _udb.FixUnitIfIsLegacy(u.replace(new, old))[1] == u:
+                leg = u.replace(new, old)
+                c = db.GetDefaultCategory(u)
+                if not c:
+                    continue
+                for how, mk in (("unit+category", lambda s_: ObtainQuantity(s_, c)), ("unit alone", lambda s_: ObtainQuantity(s_)), ("Quantity(category, unit)", lambda s_: Quantity(c, s_))):
+                    o1, o2 = P.outcome(mk, leg), P.outcome(mk, u)
+                    if o1[0] != "ok" or o2[0] != "ok":
+                        ev.append({"op": "SameReq", "call": "%s: legacy spelling %s vs %s" % (how, leg, u), "eq": False, "ne": True, "hash1": 0, "hash2": 1,
+                                   "desc1": str(o1[1:]), "desc2": str(o2[1:])})
+                        continue
+                    a, b = o1[1], o2[1]
+                    ev.append({"op": "SameReq", "call": "%s: legacy spelling %s vs %s" % (how, leg, u), "eq": bool(a == b) and len({a, b}) == 1, "ne": bool(a != b),
+                               "hash1": hash(a), "hash2": hash(b), "desc1": desc(a) + repr(a.GetComposingUnitsJoiningExponents()), "desc2": desc(b) + repr(b.GetComposingUnitsJoiningExponents())})
+                    sa = P.outcome(lambda: (Scalar(a, 2.0) * Scalar(a, 3.0)).GetUnit())
+                    sb = P.outcome(lambda: (Scalar(b, 2.0) * Scalar(b, 3.0)).GetUnit())
+                    ev.append({"op": "SameReq", "call": "%s: square of a value in legacy spelling %s vs %s" % (how, leg, u), "eq": sa == sb and sa[0] == "ok", "ne": sa != sb,
+                               "hash1": 0, "hash2": 0, "desc1": "", "desc2": ""})
     # composing maps with the same factors in another order (same rendered strings, different maps): unequal quantities
     for (c1, u1), (c2, u2) in (((("length", "m")), ("time", "s")), (("depth", "km"), ("length", "m")), (("mass", "kg"), ("temperature", "K"))):
         for e1, e2 in ((1, -1), (2, -1), (1, 1)):
